@@ -622,6 +622,9 @@ impl G<'_> {
             }
             6 if maxuser > 0 => {
                 let i = self.rng.below(maxuser.min(8) as u64) as usize;
+                if self.rng.chance(1, 4) {
+                    out.push(self.cs("global"));
+                }
                 out.push(self.cs("chardef"));
                 out.push(self.user(i));
                 out.push(T::Ch(b'='));
